@@ -341,3 +341,16 @@ Theorem port_holds_f_model st e sendable hs d :
 Proof.
   unfold port_holds_f. rewrite request_port_faulted. destruct (reaches st hs d); reflexivity.
 Qed.
+
+(* the evaluated cases with port_validb = true are covered by the theorems: the checker accepts the model *)
+Theorem port_covered_cases f sendable hs d :
+  port_validb f sendable hs d = true -> port_holds_f f sendable hs d (serve_one_f f sendable hs d) = [].
+Proof.
+  assert (Hbase : sendable || negb (existsb is_send (port_spec hs d)) = true ->
+                  port_holds sendable hs d (serve_one sendable hs d) = []).
+  { destruct sendable; [intros _; apply port_holds_model|]. cbn [orb]. intros H.
+    rewrite port_holds_unsendable. apply negb_true_iff in H. now rewrite H. }
+  unfold port_validb. destruct f as [[st e]|].
+  - rewrite port_holds_f_model. destruct (reaches st hs d); [reflexivity|]. cbn [orb]. exact Hbase.
+  - exact Hbase.
+Qed.
